@@ -16,6 +16,7 @@ Init == l = 1 /\ InitRegs
 RECURSIVE CountCells(_, _)
 CountCells(rows, y) == IF y > Len(rows) THEN 0 ELSE Len(rows[y]) + CountCells(rows, y + 1)
 
+NoBlinkRaw(rows) == \A y \in 1..Len(rows) : \A x \in 1..Len(rows[y]) : Blink(rows[y][x]) = 0
 Next ==
   /\ l <= Len(Rec)
   /\ LET e == Rec[l] IN
@@ -38,6 +39,11 @@ Next ==
                                  b == Shown(CellAt(e.back, d[1], d[2]), e.bice, e.bpal) IN
                              Viol("C04", "CellEq", l, [x |-> d[1] - 1, y |-> d[2] - 1, src |-> CellAt(e.src, d[1], d[2]), back |-> CellAt(e.back, d[1], d[2]),
                                                        shown_src |-> s, shown_back |-> b, ice |-> e.ice, opts |-> e.opts, w |-> e.w, h |-> e.h]))
+                    \* "the same blink state": a source picture in ice mode has no blinking cell; when the FILE switches the reader to
+                    \* iCE colours (CSI ? 33 h) no cell read back may carry the blink attribute either (Shown forgives the blink bit in an
+                    \* iCE buffer because pictures whose flag comes from SAUCE are stored that way - that excuse does not apply here)
+                    /\ Check(~(e.ice_seq = 1 /\ e.ice = "ice" /\ e.bice = "ice" /\ NoBlinkRaw(e.src)) \/ NoBlinkRaw(e.back), "C04", "IceBlinkState", l,
+                             [ice |-> e.ice, bice |-> e.bice, opts |-> e.opts, w |-> e.w, h |-> e.h])
                     \* ---- model layer: the reader model over the writer's tokens ------------------------
                     /\ (IF e.model = 0 THEN TRUE
                         ELSE
